@@ -34,10 +34,30 @@ LED_CODES = {"on": 0, "off": 1, "get_state": 2, "get_brightness": 3, "set_bright
 RGB_CODES = {"pins": 0, "get_color": 1, "get_state": 2, "set_color": 3, "on": 4, "off": 5, "fade": 6, "blink": 7}
 KINDS = {0: "ValueError", 1: "TypeError"}
 
-# defaults of the signatures as the property oracle needs them (the model has its own copy;
-# a changed default shows up as a correspondence disagreement)
+# defaults of the signatures as the property oracle needs them: re-read from the real classes on
+# every run (load_defaults), so that the oracle judges a call by the arguments it really received
+# (the model has its own copy; a changed default shows up as a correspondence disagreement)
 LED_DEFAULTS = {"blink": [None, 1], "fade_in": [5, 10], "fade_out": [5, 10], "flash_pattern": [None, 200]}
 RGB_DEFAULTS = {"on": [255, 255, 255], "fade": [None, None, None, 1000, 50], "blink": [None, None, None, 1, 200]}
+EXPECTED_PARAMS = {
+    "Led": {"__init__": ["pin"], "set_brightness": ["value"], "blink": ["duration_ms", "times"], "fade_in": ["step", "delay_ms"],
+            "fade_out": ["step", "delay_ms"], "flash_pattern": ["pattern", "delay_ms"]},
+    "RGBLed": {"__init__": ["red_pin", "green_pin", "blue_pin"], "set_color": ["red", "green", "blue"], "on": ["red", "green", "blue"],
+               "fade": ["red", "green", "blue", "duration_ms", "steps"], "blink": ["red", "green", "blue", "times", "delay_ms"]},
+}
+
+
+def load_defaults(ctx):
+    """signature defaults of the current classes; a renamed/reordered parameter breaks the tie (positional calls)"""
+    sig = C.run_impl(IMPL, {"signatures": True})
+    for cls, table in (("Led", LED_DEFAULTS), ("RGBLed", RGB_DEFAULTS)):
+        for meth, names in EXPECTED_PARAMS[cls].items():
+            got = sig.get(cls, {}).get(meth)
+            if got is None or [g[0] for g in got] != names:
+                ctx.disagree(f"{cls}.{meth}: positional parameters are no longer {names}", [cls, meth], names, got)
+                continue
+            if meth in table:
+                table[meth] = [g[2] if g[1] else None for g in got]
 
 
 # ----------------------------------------------------------------------------------------------
@@ -254,8 +274,9 @@ def monotone(seq, up: bool) -> bool:
     return all((a <= b) if up else (a >= b) for a, b in zip(seq, seq[1:]))
 
 
-def oracle_case(ctx, case, r):
-    """evaluate the property clauses on the implementation's behaviour; returns #clauses evaluated"""
+def oracle_case(ctx, case, r, safety_only=False):
+    """evaluate the property clauses on the implementation's behaviour; returns #clauses evaluated.
+    safety_only (IEEE-specials stream): invariant and atomicity of failing calls only"""
     cls, cargs, ops = case
     n = 0
     if r["ctor"][0] != "ok":
@@ -283,7 +304,7 @@ def oracle_case(ctx, case, r):
             if snap != prev:
                 ctx.fail(f"{cls}.{name} raised {rec['res']} but changed the object", sub, prev, snap, key=f"{cls}-atomic-{name}")
                 return n
-        if rec["res"] == "ok":
+        if rec["res"] == "ok" and not safety_only:
             args = full_args(cls, op)
             sl = [enc_num(e[1]) for e in rec["events"] if e[0] == "s"]
             lv = [[x[1] for x in e[1]] for e in rec["events"] if e[0] == "l"]
@@ -612,7 +633,30 @@ def replay_findings(ctx):
             ctx.known(f"{f['id']}: {f['what']}")
 
 
+NAN, INF = float("nan"), float("inf")
+
+
+def specials_cases():
+    """IEEE specials are outside the models: implementation only, oracle = invariant + atomicity"""
+    led_ops = [["set_brightness", NAN], ["set_brightness", INF], ["set_brightness", -INF], ["set_brightness", -0.0],
+               ["blink", NAN, 1], ["blink", INF, 1], ["blink", 5, INF], ["blink", 5, NAN], ["blink", -INF, 1],
+               ["fade_in", NAN, 1], ["fade_in", INF, 1], ["fade_in", 5, NAN], ["fade_in", 5, INF], ["fade_in", -INF, 1],
+               ["fade_out", NAN, 1], ["fade_out", INF, 1], ["fade_out", 5, NAN], ["fade_out", 5, -INF],
+               ["flash_pattern", [1, NAN, 0], 1], ["flash_pattern", [INF], 1], ["flash_pattern", [1, 0], NAN], ["flash_pattern", [1, 0], INF]]
+    rgb_ops = [["set_color", NAN, 0, 0], ["set_color", 0, INF, 0], ["on", -INF], ["fade", 1, 2, 3, NAN, 2], ["fade", 1, 2, 3, INF, 2],
+               ["fade", 1, 2, 3, 10, NAN], ["fade", 1, 2, 3, 10, INF], ["fade", NAN, 2, 3, 10, 2], ["blink", 1, 2, 3, NAN, 1],
+               ["blink", 1, 2, 3, INF, 1], ["blink", 1, 2, 3, 1, NAN], ["blink", 1, 2, 3, 1, INF], ["blink", 1, 2, 3, 1, -INF]]
+    cases = []
+    for pre in ([], [["set_brightness", 128]], [["on"]]):
+        cases += [["Led", [], pre + [o, ["get_brightness"]]] for o in led_ops]
+    for pre in ([], [["set_color", 10, 200, 30]]):
+        cases += [["RGBLed", [9, 10, 11], pre + [o, ["get_color"]]] for o in rgb_ops]
+    cases += [["RGBLed", [NAN, 1, 2], []], ["RGBLed", [1, INF, 2], []]]
+    return cases
+
+
 def run_unit(ctx: C.Ctx) -> dict:
+    load_defaults(ctx)
     cases, tags = generate(ctx)
     impl = run_cases(cases)
     have_model = bool(ctx.exes.get(UNIT))
@@ -643,6 +687,11 @@ def run_unit(ctx: C.Ctx) -> dict:
         if m is not None:
             n_cmp += compare(ctx, case, decode_model(cls, m), r)
     replay_findings(ctx)
+    spec = specials_cases()
+    n_spec = 0
+    for case, r in zip(spec, run_cases(spec)):
+        n_spec += len(r["ops"])
+        n_clauses += oracle_case(ctx, case, r, safety_only=True)
 
     return {
         "evaluations": n_ops,
@@ -659,12 +708,13 @@ def run_unit(ctx: C.Ctx) -> dict:
         "samples": [cases[0], cases[len(cases) // 3], cases[len(cases) // 2], cases[-1]],
         "distribution": {"sequences": len(cases), "sequences_by_generator": dict(by_tag), "ops": n_ops,
                          "op_results_compared_with_model": n_cmp, "oracle_clauses_evaluated": n_clauses,
+                         "specials_stream_ops_implementation_only": n_spec,
                          "op_kinds": dict(op_kinds), "result_kinds": dict(res_kinds), "argument_kinds": dict(arg_kinds),
                          "sequence_lengths": {str(k): v for k, v in sorted(lens.items())}},
         "guard": ("atomicity of failing calls is demanded for every call whose failure can only come from a scalar argument "
                   "(all calls except Led.flash_pattern with a pattern that itself contains a rejected entry: entries before the "
                   "bad one are applied - a sequence argument, outside the statement); no listed finding for this unit"),
-        "unmodelled": ["Led.__repr__/RGBLed.__repr__ (debug helpers)", "IEEE specials (NaN, inf, -0.0) as arguments",
+        "unmodelled": ["Led.__repr__/RGBLed.__repr__ (debug helpers)", "IEEE specials (NaN, inf) as arguments: sent to the implementation only, oracle = invariant + atomicity of failing calls",
                        "Led.flash_pattern with a non-iterable pattern or a str pattern", "keyword-argument calls (C08's subject)",
                        "direct writes to the public attributes Led.state/brightness/pin",
                        "the real time.sleep (the package-level sleep is replaced by a recorder, as tests/test_actuators.py does)",
